@@ -740,6 +740,33 @@ def main():
     boolean("tagSearchNewestWins", sql_newest and mem_newest,
             "find_message_epoch_by_tag_content: SQLite ORDER BY created_at DESC, processed_at DESC, id DESC LIMIT 1; memory keeps the display_order_cmp maximum")
 
+    # which message `save_message` (memory) pushes out of a group at max_messages_per_group: the comparator chain of the
+    # min_by / min_by_key / max_by over the group's map (0 = created_at, 1 = processed_at, 2 = id) and its direction
+    mem_save = fn_body(strip_comments(non_test(read("crates/mdk-memory-storage/src/messages.rs"))), "save_message", "fn:save_message(memory)")
+    m_cap = re.search(r"max_messages_per_group(.*?)\.\s*remove\s*\(", mem_save, re.S)
+    if not m_cap:
+        raise Missing("mem:save_message:cap-eviction")
+    ev = m_cap.group(1)
+    m_sel = re.search(r"\.\s*(min_by_key|max_by_key|min_by|max_by)\s*\(", ev)
+    if not m_sel:
+        raise Missing("mem:save_message:cap-eviction:selector")
+    sel_body = ev[m_sel.end():]
+    FIELD = {"created_at": 0, "processed_at": 1, "id": 2}
+    if "display_order_cmp" in sel_body or "compare_display_keys" in sel_body:
+        cap_keys = [0, 1, 2]
+    elif "processed_at_order_cmp" in sel_body or "compare_processed_at_keys" in sel_body:
+        cap_keys = [1, 0, 2]
+    elif m_sel.group(1).endswith("_key"):
+        cap_keys = [FIELD[f] for f in re.findall(r"\.\s*(created_at|processed_at|id)\b", sel_body.split("map", 1)[0])][:3]
+    else:
+        # a.X.cmp(&b.X).then_with(|| a.Y.cmp(&b.Y))… : the fields in the order they are compared
+        cap_keys = [FIELD[f] for f in re.findall(r"\b\w+\s*\.\s*(created_at|processed_at|id)\s*\.\s*cmp\s*\(", sel_body)]
+    if not cap_keys:
+        raise Missing("mem:save_message:cap-eviction:keys")
+    facts["memCapVictimKeys"] = ("List Nat", "[" + ", ".join(map(str, cap_keys)) + "]",
+                                 "mdk-memory-storage messages.rs save_message: comparator chain of the eviction at max_messages_per_group (0 created_at, 1 processed_at, 2 id)")
+    boolean("memCapVictimIsMin", m_sel.group(1).startswith("min"), "mdk-memory-storage messages.rs save_message: the eviction takes the minimum of that chain")
+
     # ORDER BY key lists of the two listings
     msgs_fn = fn_body(sql_groups, "messages", "fn:messages(sqlite)")
     # per arm of the match on the sort order: the ORDER BY clause of the first SQL text after it (the clause may end the
